@@ -117,7 +117,7 @@ class NetstringReceiver(protocol.Protocol):
     MAX_LENGTH = 99999
     _LENGTH = re.compile(rb"(0|[1-9]\d*)(:)")
 
-    _LENGTH_PREFIX = re.compile(rb"(0|[1-9]\d*)$")
+    _LENGTH_PREFIX = re.compile(rb"(0|[1-9]\d*)\Z")
 
     # Some error information for NetstringParseError instances.
     _MISSING_LENGTH = (
